@@ -227,6 +227,8 @@ func (w *World) specWrites(sp *FuncSpec) *WriteSet {
 					md, mv := w.mapArrs(m)
 					ws.add(md)
 					ws.add(mv)
+				} else if pt, ok := types.Unalias(ty.Go).Underlying().(*types.Pointer); ok && mc.Field == "" {
+					ws.add(w.boxArr(pt.Elem()))
 				} else {
 					_, index, _ := types.LookupFieldOrMethod(ty.Go, true, nil, mc.Field)
 					if len(index) == 0 {
@@ -260,7 +262,7 @@ func (w *World) locWrites(sp *FuncSpec, mc *ModClause, ctx *ResCtx) *WriteSet {
 	vars := map[string]binding{}
 	if fn := sp.fn; fn != nil {
 		for i, name := range paramNames(fn, sp) {
-			vars[name] = binding{"x", &SType{Go: sigParamType(fn.Signature, i)}}
+			vars[name] = binding{term: "x", typ: &SType{Go: sigParamType(fn.Signature, i)}}
 		}
 	}
 	vc := NewFuncVC(w, "tmp")
@@ -400,10 +402,24 @@ func (t *Translator) call(st *State, in *ssa.Call) {
 		t.builtin(st, in, b)
 		return
 	}
+	t.curCall = 0
+	if t.parent == nil && t.spec != nil && (len(t.spec.Use) > 0) {
+		t.curCall = t.callOrdinal(in)
+	}
 	t.call1(st, in)
+	t.curCall = 0
 	// ghost assertions attached to this call site
 	if t.parent == nil && t.spec != nil && len(t.spec.Asserts) > 0 {
-		if n := t.callOrdinal(in); n > 0 {
+		if n := t.callOrdinal(in); n > 0 && len(t.spec.Asserts[n]) > 0 {
+			var newKeys []string
+			// cut point: the pc just before the assertions are assumed (the assertions themselves live below it)
+			{
+				npc := t.vc.newPC("c", st.pc)
+				t.vc.assume(npc, st.pc)
+				st.pc = npc
+				st.pcHasOb = false
+			}
+			firstAssertPC := st.pc
 			for _, cl := range t.spec.Asserts[n] {
 				var li *loopInfo
 				if ls := t.inLoops[in.Block()]; len(ls) > 0 {
@@ -415,7 +431,31 @@ func (t *Translator) call(st *State, in *ssa.Call) {
 				}
 				f, _ := env.Eval(cl.E)
 				t.oblige(st, fmt.Sprintf("assert.call%d", n), cl.Label, cl.Tags, f, t.w.pos(in.Pos()), cl.Src)
+				// oblige() assumed f at the current pc: register it as scoped
+				key := st.pc + "\x00" + f
+				t.vc.scopeEnd[key] = ""
+				newKeys = append(newKeys, key)
 			}
+			// the previous group of ghost assertions is forgotten from here on (sliding window)
+			if t.spec.Cuts[n] {
+				t.implicitFrameCheck(st, fmt.Sprintf("cut%d", n), t.w.pos(in.Pos()))
+			}
+			npc := t.vc.newPC("w", st.pc)
+			if t.spec.Cuts[n] {
+				t.vc.cutAt[npc] = firstAssertPC
+			}
+			t.vc.assume(npc, st.pc)
+			st.pc = npc
+			st.pcHasOb = false
+			if t.spec.Cuts[n] {
+				t.implicitFrameAssume(st)
+				// allocation counter only grows
+				t.assume(st, "(>= "+st.heap.next+" "+t.entry.heap.next+")")
+			}
+			for _, k := range t.vc.openScoped {
+				t.vc.scopeEnd[k] = st.pc
+			}
+			t.vc.openScoped = newKeys
 		}
 	}
 }
@@ -464,6 +504,9 @@ func (t *Translator) call1(st *State, in *ssa.Call) {
 			t.assumeTyped(st, r, c.Signature().Results().At(i).Type())
 		}
 		t.setResults(in, res)
+		return
+	}
+	if callee.String() == "sort.Slice" && t.sortSliceCall(st, in) {
 		return
 	}
 	var args []string
@@ -533,7 +576,7 @@ func (t *Translator) applyContract(st *State, callee *ssa.Function, spec *FuncSp
 	names := paramNames(callee, spec)
 	for i, n := range names {
 		if i < len(args) {
-			vars[n] = binding{args[i], &SType{Go: sigParamType(sig, i)}}
+			vars[n] = binding{term: args[i], typ: &SType{Go: sigParamType(sig, i)}}
 		}
 	}
 	var cctx *ResCtx
@@ -619,14 +662,26 @@ func (t *Translator) applyContract(st *State, callee *ssa.Function, spec *FuncSp
 			} else {
 				n = fmt.Sprintf("res%d", i)
 			}
-			ev[n] = binding{r, &SType{Go: sig.Results().At(i).Type()}}
+			ev[n] = binding{term: r, typ: &SType{Go: sig.Results().At(i).Type()}}
 			if len(res) == 1 {
 				ev["res"] = ev[n]
 			}
 			ev[fmt.Sprintf("res%d", i)] = ev[n]
 		}
 		env := &Env{w: t.w, vc: t.vc, cur: st.heap, old: pre, vars: ev, ctx: cctx}
+		var use map[string]bool
+		if t.parent == nil && t.spec != nil && t.curCall > 0 {
+			if ls, ok := t.spec.Use[t.curCall]; ok {
+				use = map[string]bool{}
+				for _, l := range ls {
+					use[l] = true
+				}
+			}
+		}
 		for _, c := range spec.Ensures {
+			if use != nil && !use[c.Label] {
+				continue // relevance filter written in the caller's contract (dropping an assumption is sound)
+			}
 			f, _ := env.Eval(c.E)
 			t.assume(st, g(f))
 		}
@@ -692,7 +747,7 @@ func (t *Translator) inline(st *State, in *ssa.Call, callee *ssa.Function, args 
 	sub.ctx = t.w.ctxFor(callee.Pkg.Pkg.Path(), "")
 	for i, p := range callee.Params {
 		sub.vals[p] = args[i]
-		sub.params[p.Name()] = binding{args[i], &SType{Go: p.Type()}}
+		sub.params[p.Name()] = binding{term: args[i], typ: &SType{Go: p.Type()}}
 	}
 	sub.findLoops()
 	order := sub.topoOrder()
@@ -814,7 +869,7 @@ func (t *Translator) invoke(st *State, in *ssa.Call) {
 		full := append([]string{a.recv}, args...)
 		for i, n := range names {
 			if i < len(full) {
-				vars[n] = binding{full[i], &SType{Go: sigParamType(a.f.Signature, i)}}
+				vars[n] = binding{term: full[i], typ: &SType{Go: sigParamType(a.f.Signature, i)}}
 			}
 		}
 		env := &Env{w: t.w, vc: t.vc, cur: pre, old: pre, vars: vars, ctx: t.w.ctxFor(a.f.Pkg.Pkg.Path(), a.spec.File)}
@@ -852,7 +907,7 @@ func (t *Translator) invoke(st *State, in *ssa.Call) {
 		full := append([]string{a.recv}, args...)
 		for i, n := range names {
 			if i < len(full) {
-				vars[n] = binding{full[i], &SType{Go: sigParamType(a.f.Signature, i)}}
+				vars[n] = binding{term: full[i], typ: &SType{Go: sigParamType(a.f.Signature, i)}}
 			}
 		}
 		var preds map[string]func(string) string
@@ -885,7 +940,7 @@ func (t *Translator) invoke(st *State, in *ssa.Call) {
 				ev[k] = v
 			}
 			for i, r := range res {
-				b := binding{r, &SType{Go: sig.Results().At(i).Type()}}
+				b := binding{term: r, typ: &SType{Go: sig.Results().At(i).Type()}}
 				if len(res) == 1 {
 					ev["res"] = b
 				}
@@ -926,7 +981,7 @@ func (t *Translator) applyIfaceSpec(st *State, spec *FuncSpec, c *ssa.CallCommon
 		} else {
 			ty = sig.Params().At(i - 1).Type()
 		}
-		vars[n] = binding{full[i], &SType{Go: ty}}
+		vars[n] = binding{term: full[i], typ: &SType{Go: ty}}
 	}
 	cctx := t.w.ctxFor(spec.PkgPath, spec.File)
 	pre := st.heap.clone()
@@ -953,7 +1008,7 @@ func (t *Translator) applyIfaceSpec(st *State, spec *FuncSpec, c *ssa.CallCommon
 		ev[k] = v
 	}
 	for i, r := range res {
-		b := binding{r, &SType{Go: sig.Results().At(i).Type()}}
+		b := binding{term: r, typ: &SType{Go: sig.Results().At(i).Type()}}
 		if len(res) == 1 {
 			ev["res"] = b
 		}
